@@ -133,3 +133,77 @@ Theorem C20_url_ports_in_range : forall s,
   (forall a b, parse_url_port s = inl (URange a b) -> (1 <= a <= 65535)%Z /\ (1 <= b <= 65535)%Z /\ (a <= b)%Z).
 Proof. exact (fun s => conj (url_port_ok s) (url_range_ports_ok s)). Qed.
 Print Assumptions C20_url_ports_in_range.
+
+(* ---------------------------------------------------------------- validated configurations *)
+
+(* what the code guarantees when two VALIDATED server configurations are merged: the patch-level validity
+   always survives; full validity survives unless the patch carries a non-nil empty portBindings list
+   (witness below: ApplyJSONServerConfig re-validates after the merge and rejects it) *)
+Theorem C20_validated_merge_validated : forall old patch,
+  (validate_server_patch old = 0%N -> validate_server_patch patch = 0%N ->
+   validate_server_patch (merge_server old patch) = 0%N) /\
+  (validate_full_server old = 0%N -> validate_server_patch patch = 0%N -> s_ports patch <> Some [] ->
+   validate_full_server (merge_server old patch) = 0%N).
+Proof. exact (fun old patch => conj (merge_server_patch_valid old patch) (merge_server_full_valid old patch)). Qed.
+Print Assumptions C20_validated_merge_validated.
+
+Theorem C20_validated_merge_empty_ports_refuted :
+  validate_full_server ex_full_old = 0%N /\ validate_server_patch ex_empty_ports_patch = 0%N /\
+  validate_full_server (merge_server ex_full_old ex_empty_ports_patch) = 10%N.
+Proof. exact merge_server_empty_ports_invalid. Qed.
+Print Assumptions C20_validated_merge_empty_ports_refuted.
+
+(* client: patch-level validity survives; a patch that leaves activeProfile / rpcPort / socks5Port / httpProxyPort
+   alone keeps a valid configuration valid *)
+Theorem C20_validated_merge_client_validated : forall old patch,
+  (validate_client_patch old = 0%N -> validate_client_patch patch = 0%N ->
+   validate_client_patch (merge_client old patch) = 0%N) /\
+  (validate_full_client old = 0%N -> validate_client_patch patch = 0%N ->
+   c_active patch = None -> c_rpc patch = None -> c_socks5 patch = None -> c_http patch = None ->
+   validate_full_client (merge_client old patch) = 0%N).
+Proof. exact (fun old patch => conj (merge_client_patch_valid old patch) (merge_client_full_valid old patch)). Qed.
+Print Assumptions C20_validated_merge_client_validated.
+
+(* ... but in general a VALID client configuration merged with a VALID patch is INVALID (the patch validator
+   looks neither at the ports nor at the active profile); applyClientConfig re-validates the result *)
+Theorem C20_validated_merge_client_full_refuted :
+  validate_full_client ex_client = 0%N /\
+  validate_client_patch ex_bad_port_patch = 0%N /\
+  validate_full_client (merge_client ex_client ex_bad_port_patch) = 57%N /\
+  validate_client_patch ex_bad_active_patch = 0%N /\
+  validate_full_client (merge_client ex_client ex_bad_active_patch) = 55%N.
+Proof. exact merge_client_full_can_be_invalid. Qed.
+Print Assumptions C20_validated_merge_client_full_refuted.
+
+(* storing a validated server configuration: the model's store has no error branch, and what is written is again
+   a valid configuration (so it can be reloaded and started) without a plaintext password; premise: the hash
+   output is never the empty string *)
+Theorem C20_validated_store_total : forall (H : bytes -> bytes), (forall x, H x <> []) -> forall c,
+  validate_full_server c = 0%N ->
+  validate_full_server (store_server H c) = 0%N /\ Forall no_plaintext (s_users (store_server H c)).
+Proof. exact store_valid_server. Qed.
+Print Assumptions C20_validated_store_total.
+
+(* export then import of a mierus:// link: for every validated profile, every server of it whose bindings do not
+   carry both a port and a range, and faithful library steps (hypotheses), the importer returns the part of the
+   profile a link carries *)
+Theorem C20_validated_link_roundtrip_partial :
+  forall (itoa : Z -> bytes) (b64 : bytes -> bytes) (mux_name hs_name : Z -> bytes),
+  (forall n, (- 2 ^ 31 <= n < 2 ^ 31)%Z -> atoi (itoa n) = Some n) ->
+  (forall x, b64 x = [] <-> x = []) ->
+  (forall v, mux_name v <> []) -> (forall v, hs_name v <> []) ->
+  forall p s f,
+  validate_profile p = 0%N -> In s (p_servers p) ->
+  Forall binding_unambiguous (se_bindings s) ->
+  export_server p s = Some f ->
+  simple_link (link_as_parsed itoa b64 mux_name hs_name f) = Ok (simple_view p s f).
+Proof. exact link_roundtrip. Qed.
+Print Assumptions C20_validated_link_roundtrip_partial.
+
+(* without the premise on the bindings the round trip fails for a validated profile *)
+Theorem C20_link_roundtrip_ambiguous_binding_refuted :
+  validate_profile ex_ambiguous_profile = 0%N /\
+  exists s f, In s (p_servers ex_ambiguous_profile) /\ export_server ex_ambiguous_profile s = Some f /\
+    forall itoa b64 mn hn, simple_link (link_as_parsed itoa b64 mn hn f) = Err 14.
+Proof. exact link_roundtrip_ambiguous_binding_fails. Qed.
+Print Assumptions C20_link_roundtrip_ambiguous_binding_refuted.
